@@ -500,6 +500,80 @@ def check_wrapper(ctx, info, m, ridx, ok_acquire):
                     fn=fn, pos=s["pos"])
 
 
+def rule_placeholder(ctx, infos):
+    """a state that was taken out of the handle (placeholder left behind) is not made visible while work goes on"""
+    rid = "R-PROTO-PLACEHOLDER"
+    ctx.rule(rid, "when a function takes the state out of a handle with mem::replace / mem::take (leaving a placeholder such as ErrTaken "
+                  "or None) and keeps working, it does not release the handle lock before storing a real state into it: every path from "
+                  "the take to a release of the guard that is followed by further calls passes a store through the same guard. "
+                  "(A guard released at scope end on the way to `return` only ends the function: the placeholder is then the final, "
+                  "terminal state.)  Otherwise concurrent callers observe the placeholder and report a failed frame")
+    n = 0
+    for p, info in sorted(infos.items()):
+        fn = info.fn
+        takes = [s_ for s_ in info.stores if s_["kind"] in ("replace", "take") and s_["variant"] != "Rendering" and s_["result"] is not None]
+        if not takes:
+            continue
+        ctx.seen(fn)
+        for tk in takes:
+            n += 1
+            g = tk["guard"]
+            stores = {s_["bb"] for s_ in info.stores if s_ is not tk and s_["guard"] == g}
+            # releases of the guard: drop terminators / mem::drop(guard) calls / moves of the guard into a call
+            rel = []
+            galias = alias_closure(fn, {g}, through_try=False)
+            for b, blk in enumerate(fn.blocks):
+                if blk[2]:
+                    continue
+                t = blk[1]
+                if t[0] == "drop" and len(t[1]) == 1 and t[1][0] in galias:
+                    rel.append(b)
+                elif t[0] == "call":
+                    c = callee(t)
+                    if c and c["fn"].startswith("core::mem::drop") and t[2] and op_local(t[2][0]) in galias:
+                        rel.append(b)
+            start = fn.term(tk["bb"])[4] if tk["idx"] == "term" else tk["bb"]
+            bad = None
+            for r in rel:
+                if find_path_edges(fn, [start], lambda x, r=r: x == r, avoid_block=lambda x: x in stores) is None and start != r:
+                    continue
+                # work after the release?
+                after = fn.term(r)[4] if fn.term(r)[0] == "call" else (fn.term(r)[2] if fn.term(r)[0] == "drop" else None)
+                if after is None:
+                    continue
+                seen = set()
+                work = [after]
+                real_call = None
+                while work:
+                    x = work.pop()
+                    if x in seen or fn.is_cleanup(x):
+                        continue
+                    seen.add(x)
+                    tt = fn.term(x)
+                    if tt[0] == "call":
+                        cc = callee(tt)
+                        nm = cc["fn"] if cc else "?"
+                        if not (nm.startswith("core::mem::drop") or nm.startswith("core::ptr::drop_in_place") or nm.startswith("core::panicking")
+                                or nm.startswith("core::ops::try_trait") or nm.startswith("core::convert::")):
+                            real_call = (x, nm)
+                            break
+                    work.extend(fn.succs(x))
+                if real_call is not None:
+                    bad = (r, real_call)
+                    break
+            key = "placeholder:%s:%s" % (p, tk["variant"] or "value")
+            if bad is None:
+                ctx.ok(rid, key, "the taken state is replaced under the guard before the guard is released ahead of further work "
+                       "(%d releases examined)" % len(rel), nontrivial=True, fn=fn)
+            else:
+                ctx.bad(rid, key + "|released-with-placeholder",
+                        "%s takes the state out of the handle (leaving %s) and releases the lock while it goes on to call %s: other "
+                        "callers see the placeholder and fail or re-render" % (p.split("::")[-1], tk["variant"] or "a placeholder", bad[1][1].split("::")[-1]),
+                        fn=fn, pos=fn.term_pos(bad[0]))
+    ctx.counts[rid + ".takes"] = n
+    ctx.floor(rid + ".takes", 2)
+
+
 def rule_wait(ctx, infos):
     rid = "R-PROTO-WAIT"
     ctx.rule(rid, "Condvar::wait only inside wait_until_render, inside a CFG cycle that re-reads the state discriminant, "
